@@ -179,6 +179,10 @@ def guarded(report, name, what, functions, bounds, body):
         ob.done([], 'inconclusive', f'{type(e).__name__}: {e}')
     except RecursionError as e:
         ob.done([], 'inconclusive', 'recursion limit')
+    except Exception as e:
+        import traceback
+        traceback.print_exc(limit=6, file=sys.stderr)
+        ob.done([], 'inconclusive', f'internal error in obligation: {type(e).__name__}: {str(e)[:300]}')
     if ob.o.status == 'pending':
         ob.done([], 'inconclusive', 'obligation body did not conclude')
     return ob.o
@@ -190,3 +194,52 @@ def write_replay(prop, name, payload):
     with open(p, 'w') as f:
         json.dump(payload, f, indent=1, default=str)
     return p
+
+
+# ----------------------------------------------------------------------------- source-level struct layout (field name -> MIR field index)
+def struct_fields(relpath, name):
+    src = open(os.path.join(REPO, relpath), errors='replace').read()
+    src = re.sub(r'//[^\n]*', '', src)
+    m = re.search(r'\bstruct\s+' + re.escape(name) + r'\b[^{;(]*\{', src)
+    if not m:
+        raise NotFound(f'struct {name} in {relpath}')
+    i = m.end()
+    d, j = 1, i
+    while j < len(src) and d:
+        if src[j] == '{':
+            d += 1
+        elif src[j] == '}':
+            d -= 1
+        j += 1
+    body = src[i:j - 1]
+    body = re.sub(r'#\s*\[[^\]]*\]', '', body)
+    out = []
+    depth = 0
+    cur = ''
+    for ch in body:
+        if ch in '<([{':
+            depth += 1
+        elif ch in '>)]}':
+            depth -= 1
+        if ch == ',' and depth == 0:
+            out.append(cur)
+            cur = ''
+        else:
+            cur += ch
+    out.append(cur)
+    names = []
+    for f in out:
+        mm = re.match(r'\s*(?:pub(?:\([^)]*\))?\s+)?(\w+)\s*:', f)
+        if mm:
+            names.append(mm.group(1))
+    return names
+
+
+def struct_sym(name, ty, fields, values):
+    """Sym of struct type `ty` whose named fields are bound to the given values"""
+    s = Sym(name, ty)
+    for fname, v in values.items():
+        if fname not in fields:
+            raise NotFound(f'field {fname} of {ty}')
+        s = s.with_ov(('f', fields.index(fname)), v)
+    return s
